@@ -189,7 +189,12 @@ impl UintVecMin0 {
     #[inline]
     pub fn fast_get(data: &[u8], bits: usize, mask: usize, idx: usize) -> Result<usize> {
         assert!(bits <= 58, "fast_get requires bits <= 58");
-        let bit_idx = bits * idx;
+        // bits * idx wraps in release builds for an index far past the data (8 bits * 2^61 = 0)
+        // and the wrapped offset would pass the bounds check below
+        let bit_idx = match bits.checked_mul(idx) {
+            Some(b) => b,
+            None => return Err(ZiporaError::out_of_bounds(idx, data.len())),
+        };
         let byte_idx = bit_idx / 8;
 
         // SAFETY FIX: Validate we can read 8 bytes (size of usize)
